@@ -3,6 +3,7 @@
   * `α := Float`  – executable (driver, correspondence with the Python implementation)
   * `α := ℝ`      – object of the theorems (instance in OdakProofs/RealInst.lean)
   * `α := Dual β` – forward-mode derivatives (OdakModel/Dual.lean)
+  * `α := Chk β`  – value + "every derivative taken on the autograd graph is finite" flag (OdakModel/Chk.lean)
   No Mathlib import anywhere below OdakModel/.
 -/
 namespace Odak
@@ -26,6 +27,10 @@ class Num (α : Type) extends Zero α, One α, Add α, Sub α, Mul α, Div α, N
   atan2 : α → α → α
   decLt : ∀ a b : α, Decidable (a < b)
   decLe : ∀ a b : α, Decidable (a ≤ b)
+  /-- element-wise selection `torch.where(c, a, b)`: BOTH branches have been evaluated.  The value is the chosen one; the
+      instances that carry derivative information (`Dual`, `Chk`) combine both branches the way autograd does
+      (mask · grad of each branch), which is where `0 · inf = NaN` comes from. -/
+  select : Bool → α → α → α := fun c a b => bif c then a else b
 
 namespace Num
 variable {α : Type} [Num α]
